@@ -119,11 +119,24 @@ pub fn fals_c18(rng: &mut Rng, thorough: bool, release: bool) -> Fals {
                         format!("state {} (seed {}), min {:e} ({:#x}), max {:e} ({:#x}) -> {:e}", c, seed, lo, lo.to_bits(), hi, hi.to_bits(), v)
                     });
                 }
-                for &len in &lens {
-                    let mut g = random::Generator::create(seed);
-                    let j = g.generate(0.0, len as f32) as usize;
-                    f.check(class, j < len, "shuffle index generate(0,len) as usize reaches len", || {
-                        format!("state {} (seed {}), len {} -> index {}", c, seed, len, j)
+                // shuffling from exactly this state: no panic, a permutation
+                for &len in &lens[..3] {
+                    let r = catch_unwind(AssertUnwindSafe(|| {
+                        let mut g = random::Generator::create(seed);
+                        let mut v: Vec<usize> = (0..len).collect();
+                        g.shuffle(&mut v);
+                        v
+                    }));
+                    let ok = match &r {
+                        Ok(v) => {
+                            let mut s2 = v.clone();
+                            s2.sort();
+                            s2 == (0..len).collect::<Vec<_>>()
+                        }
+                        Err(_) => false,
+                    };
+                    f.check(class, ok, "shuffle panicked or did not return a permutation", || {
+                        format!("first state {} (seed {}), length {}", c, seed, len)
                     });
                 }
             }
@@ -639,6 +652,30 @@ fn ref_step(o: &Opt, stepnr: i32, w: f64, g: f64, st: &mut RefState) -> f64 {
 
 pub fn fals_c03(rng: &mut Rng, thorough: bool) -> Fals {
     let mut f = Fals::new();
+    // centred RMSprop on a constant gradient: E[g^2] - E[g]^2 tends to 0 and must not go negative
+    for alpha in [0.99f32, 0.9, 0.5] {
+        for g in [0.5f32, 1.0, 0.1, 3.0] {
+            for momentum in [None, Some(0.9f32)] {
+                let opt = Opt::RMS { lr: 0.01, alpha, eps: 1e-8, decay: None, momentum, centered: true };
+                let mut o = opt.to();
+                o.validate(vec![vec![vec![t1(vec![0.0; 2]), t1(vec![0.0; 2])]]]);
+                let mut w = t1(vec![0.25, -0.5]);
+                let steps = if thorough { 6000 } else { 2500 };
+                let mut bad = None;
+                for s in 0..steps {
+                    let mut gt = t1(vec![g, -g]);
+                    o.update(0, 0, false, (s + 1) as i32, &mut w, &mut gt);
+                    if flat_of(&w).iter().any(|x| !x.is_finite()) {
+                        bad = Some(s + 1);
+                        break;
+                    }
+                }
+                f.check("rmsprop/centered", bad.is_none(), "parameters became NaN or infinite on a constant moderate gradient", || {
+                    format!("{:?}, w0=[0.25,-0.5], constant gradient [{}, {}]: non-finite after step {}", opt, g, -g, bad.unwrap_or(0))
+                });
+            }
+        }
+    }
     let reps = if thorough { 600 } else { 60 };
     for kind in 0..5 {
         for r in 0..reps {
